@@ -81,10 +81,11 @@ func vKind(err error) string {
 	return "other"
 }
 
-func newVSim(init, max time.Duration) *vSim {
+// pp: the supervisor value has `propagatePanic` set, as after supervisor.New(..., WithPropagatePanic) - what guardiand does
+func newVSim(init, max time.Duration, pp bool) *vSim {
 	s := &vSim{arrive: make(chan struct{}, 1), entered: make(chan *vInst), stop: make(chan struct{}), stopped: make(chan struct{}), init: init, max: max}
 	lg := zap.NewNop()
-	s.sup = &supervisor{logger: lg, ilogger: lg, pReq: make(chan *processorRequest)}
+	s.sup = &supervisor{logger: lg, ilogger: lg, pReq: make(chan *processorRequest), propagatePanic: pp}
 	s.sup.root = newNode("root", s.runnable, s.sup, nil)
 	s.tune(s.sup.root)
 	go func() {
@@ -375,6 +376,12 @@ func (s *vSim) dropLive(in *vInst) {
 
 // a panic raised inside Signal / RunGroup unwinds the runnable in the real system: let the goroutine panic for real
 func (s *vSim) unwind(in *vInst) {
+	if s.sup.propagatePanic {
+		// Nothing would recover it: the process (this test binary) would be gone.  The generator never asks for a call that
+		// panics in this mode, so the supervisor call panicked where it must not: the case ends here (a `bad` line).
+		s.bad = fmt.Sprintf("panic inside Signal / RunGroup of %s under propagatePanic", in.dn)
+		return
+	}
 	in.cmd <- vCmd{pan: true}
 	s.dropLive(in)
 	s.waitReqs(1)
@@ -490,16 +497,25 @@ func (g *vGen) pickNames(s *vSim, parent *node) []string {
 	return out
 }
 
-// one case = one supervisor and a sequence of operations chosen among what is currently possible
-func (g *vGen) simCase(perturb bool, steps int) {
+// one case = one supervisor and a sequence of operations chosen among what is currently possible.
+// pp: the supervisor has `propagatePanic` set.  The option tells the goroutine started by processSchedule not to recover
+// a panic of the runnable - the process ends, which is outside what C18 states - so these cases contain no panic: no
+// runnable is told to panic and Signal is only called in the state that admits it (never with perturbations: a
+// fabricated tree makes Signal / RunGroup panic legitimately).  Everything else - every kind of return, at any time,
+// under any interleaving of processor steps - is as in the other cases, and the model's answer is the same.
+func (g *vGen) simCase(perturb bool, steps int, pp bool) {
 	r := g.r
 	g.n++
 	cid := fmt.Sprintf("sim%d", g.n)
 	inits := []int64{1000, 1000, 7, 333}
 	maxs := []int64{6000, 6000, 100, 5000}
 	pi := r.Intn(len(inits))
-	s := newVSim(time.Duration(inits[pi]), time.Duration(maxs[pi]))
-	fmt.Fprintf(g.w, "reset %s init=%d max=%d pert=%v %s\n", cid, inits[pi], maxs[pi], perturb, s.dump())
+	s := newVSim(time.Duration(inits[pi]), time.Duration(maxs[pi]), pp)
+	ppn := 0
+	if pp {
+		ppn = 1
+	}
+	fmt.Fprintf(g.w, "reset %s init=%d max=%d pert=%v pp=%d %s\n", cid, inits[pi], maxs[pi], perturb, ppn, s.dump())
 	emit := func(op, body string) {
 		// fromContext takes sup.mu and then calls nodeByDN: when that panics the mutex stays locked for good
 		lk := 1
@@ -574,6 +590,18 @@ func (g *vGen) simCase(perturb bool, steps int) {
 					wR = 0
 				}
 			}
+			if pp {
+				// only calls that cannot panic
+				if st != nodeStateNew {
+					wH = 0
+				}
+				if st != nodeStateHealthy {
+					wD = 0
+				}
+				if n == nil {
+					wR = 0
+				}
+			}
 			add(wH, func() { emit("sig", s.opSig(in, SignalHealthy)) })
 			add(wD, func() { emit("sig", s.opSig(in, SignalDone)) })
 			if n != nil {
@@ -585,7 +613,13 @@ func (g *vGen) simCase(perturb bool, steps int) {
 			if depth == 0 {
 				wRet = 1 // a root that keeps dying keeps the tree at one node
 			}
-			add(wRet, func() { emit("ret", s.opRet(in, vRetKinds[r.Intn(len(vRetKinds))])) })
+			add(wRet, func() {
+				kind := vRetKinds[r.Intn(len(vRetKinds))]
+				for pp && kind == "panic" {
+					kind = vRetKinds[r.Intn(len(vRetKinds))]
+				}
+				emit("ret", s.opRet(in, kind))
+			})
 		}
 		if r.Intn(40) == 0 {
 			add(3, func() { emit("kill", "res="+vGuard(func() { s.sup.processKill() })) })
@@ -694,9 +728,20 @@ func TestVerifSupervisorSim(t *testing.T) {
 	}
 	// a supervisor that loses requests makes every case wait for its timeout: three such cases are evidence enough
 	for i := 0; i < nPure && g.bad < 3; i++ {
-		g.simCase(false, steps/2+g.r.Intn(steps))
+		g.simCase(false, steps/2+g.r.Intn(steps), false)
 	}
 	for i := 0; i < nPert && g.bad < 3; i++ {
-		g.simCase(true, steps/2+g.r.Intn(steps))
+		g.simCase(true, steps/2+g.r.Intn(steps), false)
+	}
+	// the same game with `propagatePanic` set on the supervisor (what guardiand runs) and no panicking runnable; a PRNG of
+	// its own, after everything else: the cases above are the same for a given seed as before.  One case in which a
+	// request never shows up is evidence enough here (each costs a full timeout).
+	nPP := 40
+	if os.Getenv("VERIF_TIER") == "thorough" {
+		nPP = 600
+	}
+	g.r = rand.New(rand.NewSource(seed*32452843 + 1818))
+	for i, bad0 := 0, g.bad; i < nPP && g.bad == bad0; i++ {
+		g.simCase(false, steps/2+g.r.Intn(steps), true)
 	}
 }
